@@ -1,4 +1,6 @@
 """Kani route: overlay harness modules into a scratch copy of /repo's working tree and run them."""
+import hashlib
+import json
 import os
 import re
 import shutil
@@ -74,7 +76,9 @@ class Scratch:
             hdir = os.path.join(self.dir, 'verif_kani')
             os.makedirs(hdir, exist_ok=True)
             dst = os.path.join(hdir, mod_file)
-            shutil.copyfile(src, dst)
+            text = open(src).read()
+            text = re.sub(r'(?m)^//@include (\S+)\s*$', lambda m: open(os.path.join(ROOT, 'kani', m.group(1))).read(), text)
+            open(dst, 'w').write(text)
             with open(tpath, 'a') as f:
                 f.write('\n#[cfg(kani)]\n#[path = "%s"]\nmod %s;\n' % (dst, modname))
             self.applied.append('%s += mod %s (%s)' % (target, modname, src))
@@ -172,8 +176,99 @@ def _parse_block(b):
     return r
 
 
+PKG_SOURCES = {
+    'flipdot-core': (['libs/core/'], ['core_']),
+    'flipdot-serial': (['libs/core/', 'libs/serial/'], ['serial_']),
+    'flipdot-testing': (['libs/core/', 'libs/serial/', 'libs/testing/'], ['testing_', 'shared_']),
+    'flipdot': (['libs/', 'src/'], ['sign', 'shared_']),
+}
+
+
+def tree_hash(scratch, package):
+    """Content hash of everything that can influence a verdict for `package`: the sources of the package and of the
+    workspace crates it depends on (scratch copy of the working tree, overlay included), the manifests, the harness
+    files overlaid into the package, and the tool version."""
+    cache = getattr(scratch, '_hashes', None)
+    if cache is None:
+        cache = scratch._hashes = {}
+    if package in cache:
+        return cache[package]
+    dirs, hprefixes = PKG_SOURCES[package]
+    h = hashlib.sha256()
+    h.update(b'kani-0.68.0|' + package.encode() + b'|')
+    files = []
+    for root, ds, fs in os.walk(scratch.repo):
+        ds[:] = sorted(d for d in ds if d not in ('target', '.git'))
+        for f in sorted(fs):
+            p = os.path.join(root, f)
+            rel = os.path.relpath(p, scratch.repo)
+            if f in ('Cargo.toml', 'Cargo.lock') or (f.endswith('.rs') and any(rel.startswith(d) for d in dirs)):
+                files.append(p)
+    hk = os.path.join(scratch.dir, 'verif_kani')
+    if os.path.isdir(hk):
+        for f in sorted(os.listdir(hk)):
+            if any(f.startswith(x) for x in hprefixes):
+                files.append(os.path.join(hk, f))
+    for p in files:
+        h.update(os.path.relpath(p, scratch.dir).encode() + b'\0')
+        # the overlay writes absolute scratch paths into the sources: normalise them
+        h.update(open(p, 'rb').read().replace(scratch.dir.encode(), b'<SCRATCH>') + b'\0')
+    cache[package] = h.hexdigest()
+    return cache[package]
+
+
+VERDICT_CACHE = os.path.join(CACHE, 'kani-verdicts')
+
+
+def _cache_get(key):
+    if os.environ.get('VERIF_NO_CACHE'):
+        return None
+    p = os.path.join(VERDICT_CACHE, key + '.json')
+    if os.path.exists(p):
+        try:
+            return json.load(open(p))
+        except Exception:
+            return None
+    return None
+
+
+def _cache_put(key, val):
+    os.makedirs(VERDICT_CACHE, exist_ok=True)
+    tmp = os.path.join(VERDICT_CACHE, key + '.tmp.%d' % os.getpid())
+    json.dump(val, open(tmp, 'w'))
+    os.replace(tmp, os.path.join(VERDICT_CACHE, key + '.json'))
+
+
 def run_harnesses(scratch, package, harnesses, jobs=8, timeout=3600, extra_args=None, target_slot='main'):
-    """Run the named harnesses of one package; returns (results, meta)."""
+    """Run the named harnesses of one package; returns (results, meta).
+    Verdicts are memoised by content: key = sha256(every source file of the scratch tree incl. the overlaid harness
+    modules, tool version, package, harness). Several properties share harnesses (C09/C10/C11, C16/C18, ...); a harness
+    whose complete input is byte-identical to an earlier successful run is not re-solved (evidence says so). Any change to
+    /repo or to the harness files changes the key. VERIF_NO_CACHE=1 disables this."""
+    th = tree_hash(scratch, package)
+    cached = {}
+    todo = []
+    for h in harnesses:
+        c = _cache_get('%s-%s-%s' % (th[:32], package, h))
+        if c is not None and h != 'canary_must_fail':
+            c['from_cache'] = True
+            cached[h] = c
+        else:
+            todo.append(h)
+    if not [h for h in todo if h != 'canary_must_fail'] and cached:
+        # everything decided already for these exact inputs; still run the canary to make sure the toolchain works
+        pass
+    res, meta = _run_harnesses_uncached(scratch, package, todo, jobs, timeout, extra_args, target_slot) if todo else ({}, {'cmd': '(all verdicts reused from the content-addressed cache)', 'wall_s': 0.0, 'exit': 0, 'tail': ''})
+    for h, r in res.items():
+        if r.get('status') == 'SUCCESSFUL' and not r.get('failed_checks'):
+            _cache_put('%s-%s-%s' % (th[:32], package, h), {k: v for k, v in r.items() if k != 'raw'} | {'raw': r.get('raw', '')[-500:], 'cached_at': time.strftime('%Y-%m-%dT%H:%M:%S')})
+    res.update(cached)
+    meta['reused_from_cache'] = sorted(cached)
+    meta['tree_hash'] = th[:32]
+    return res, meta
+
+
+def _run_harnesses_uncached(scratch, package, harnesses, jobs=8, timeout=3600, extra_args=None, target_slot='main'):
     env = dict(os.environ)
     env['CARGO_NET_OFFLINE'] = 'true'
     env['CARGO_TARGET_DIR'] = os.path.join(CACHE, 'kani-target-' + target_slot)
